@@ -560,6 +560,150 @@ impl Gen for TrailingCommaE {
     }
 }
 
+/// raw identifiers as field names of a struct *variant* and as variant names
+#[derive(Serialize, Deserialize, Schema, MaxSize, Debug, Clone, PartialEq)]
+pub enum RawVar {
+    Plain,
+    Cfg { r#type: u8, r#in: u16, r#match: bool },
+    T(u16),
+    r#Self_ { r#loop: i8 },
+}
+impl Gen for RawVar {
+    fn gen(s: &mut Src) -> Self {
+        match s.below(4) {
+            0 => RawVar::Plain,
+            1 => RawVar::Cfg { r#type: Gen::gen(s), r#in: Gen::gen(s), r#match: Gen::gen(s) },
+            2 => RawVar::T(Gen::gen(s)),
+            _ => RawVar::r#Self_ { r#loop: Gen::gen(s) },
+        }
+    }
+    fn extremes() -> Vec<Self> {
+        vec![RawVar::Plain, RawVar::Cfg { r#type: 255, r#in: u16::MAX, r#match: true }, RawVar::T(u16::MAX), RawVar::r#Self_ { r#loop: i8::MIN }]
+    }
+}
+
+/// layout attributes that have nothing to do with serialisation
+#[derive(Serialize, Deserialize, Schema, MaxSize, Debug, Clone, PartialEq)]
+#[repr(transparent)]
+pub struct ReprT(pub u32);
+#[derive(Serialize, Deserialize, Schema, MaxSize, Debug, Clone, PartialEq)]
+#[repr(transparent)]
+pub struct ReprTN {
+    pub inner: u16,
+}
+#[derive(Serialize, Deserialize, Schema, MaxSize, Debug, Clone, PartialEq)]
+#[repr(transparent)]
+pub struct ReprTG<T>(pub T);
+#[derive(Serialize, Deserialize, Schema, MaxSize, Debug, Clone, Copy, PartialEq)]
+#[repr(u8)]
+pub enum ReprU8 {
+    A = 3,
+    B = 7,
+    C = 200,
+}
+#[derive(Serialize, Deserialize, Schema, MaxSize, Debug, Clone, PartialEq)]
+#[repr(C)]
+pub struct ReprC {
+    pub a: u8,
+    pub b: u64,
+    pub c: u8,
+}
+impl Gen for ReprT {
+    fn gen(s: &mut Src) -> Self {
+        ReprT(Gen::gen(s))
+    }
+    fn extremes() -> Vec<Self> {
+        vec![ReprT(u32::MAX)]
+    }
+}
+impl Gen for ReprTN {
+    fn gen(s: &mut Src) -> Self {
+        ReprTN { inner: Gen::gen(s) }
+    }
+    fn extremes() -> Vec<Self> {
+        vec![ReprTN { inner: u16::MAX }]
+    }
+}
+impl<T: Gen> Gen for ReprTG<T> {
+    fn gen(s: &mut Src) -> Self {
+        ReprTG(Gen::gen(s))
+    }
+    fn extremes() -> Vec<Self> {
+        T::extremes().into_iter().map(ReprTG).collect()
+    }
+}
+impl Gen for ReprU8 {
+    fn gen(s: &mut Src) -> Self {
+        [ReprU8::A, ReprU8::B, ReprU8::C][s.below(3) as usize]
+    }
+    fn extremes() -> Vec<Self> {
+        vec![ReprU8::A, ReprU8::B, ReprU8::C]
+    }
+}
+impl Gen for ReprC {
+    fn gen(s: &mut Src) -> Self {
+        ReprC { a: Gen::gen(s), b: Gen::gen(s), c: Gen::gen(s) }
+    }
+    fn extremes() -> Vec<Self> {
+        vec![ReprC { a: 255, b: u64::MAX, c: 255 }]
+    }
+}
+
+/// serde attributes that change what is written per value; the size bound has to hold for whatever is written
+#[derive(Serialize, MaxSize, Debug, Clone, PartialEq)]
+pub struct SkipIf {
+    pub id: u8,
+    #[serde(skip_serializing_if = "Option::is_none")]
+    pub extra: Option<u32>,
+    pub tail: u16,
+}
+#[derive(Serialize, MaxSize, Debug, Clone, PartialEq)]
+pub struct SkipDe {
+    pub id: u8,
+    #[serde(skip_deserializing)]
+    pub cache: u64,
+}
+#[derive(Serialize, MaxSize, Debug, Clone, PartialEq)]
+pub enum SkipVar {
+    A {
+        #[serde(skip_serializing_if = "is_zero")]
+        n: u32,
+        m: u8,
+    },
+    B(#[serde(skip_deserializing)] i64),
+}
+fn is_zero(n: &u32) -> bool {
+    *n == 0
+}
+impl Gen for SkipIf {
+    fn gen(s: &mut Src) -> Self {
+        SkipIf { id: Gen::gen(s), extra: Gen::gen(s), tail: Gen::gen(s) }
+    }
+    fn extremes() -> Vec<Self> {
+        vec![SkipIf { id: 255, extra: Some(u32::MAX), tail: u16::MAX }, SkipIf { id: 0, extra: None, tail: u16::MAX }]
+    }
+}
+impl Gen for SkipDe {
+    fn gen(s: &mut Src) -> Self {
+        SkipDe { id: Gen::gen(s), cache: Gen::gen(s) }
+    }
+    fn extremes() -> Vec<Self> {
+        vec![SkipDe { id: 255, cache: u64::MAX }]
+    }
+}
+impl Gen for SkipVar {
+    fn gen(s: &mut Src) -> Self {
+        if s.below(2) == 0 {
+            SkipVar::A { n: Gen::gen(s), m: Gen::gen(s) }
+        } else {
+            SkipVar::B(Gen::gen(s))
+        }
+    }
+    fn extremes() -> Vec<Self> {
+        vec![SkipVar::A { n: u32::MAX, m: 255 }, SkipVar::A { n: 0, m: 255 }, SkipVar::B(i64::MIN)]
+    }
+}
+
 macro_rules! big_enum {
     ($name:ident, $n:expr, [$($v:ident),*]) => {
         #[derive(Serialize, Deserialize, Schema, MaxSize, Debug, Clone, Copy, PartialEq)]
@@ -755,6 +899,16 @@ pub fn types() -> Vec<CorpusType> {
     v.push(base::<heapless07::Vec<UnitS, 3>>("heapless07::Vec<UnitS,3>").schema::<heapless07::Vec<UnitS, 3>>().de::<heapless07::Vec<UnitS, 3>>());
     full!(v, WideEnum, bounded);
     full!(v, Calibration, bounded);
+    full!(v, RawVar, bounded);
+    full!(v, ReprT, bounded);
+    full!(v, ReprTN, bounded);
+    full!(v, ReprTG<u16>, bounded);
+    full!(v, ReprTG<(u8, String)>, schema);
+    full!(v, ReprU8, bounded);
+    full!(v, ReprC, bounded);
+    v.push(base::<SkipIf>("SkipIf").max::<SkipIf>(false));
+    v.push(base::<SkipDe>("SkipDe").max::<SkipDe>(false));
+    v.push(base::<SkipVar>("SkipVar").max::<SkipVar>(false));
     full!(v, TrailingCommaS, bounded);
     full!(v, TrailingCommaE, bounded);
     full!(v, Result<u8, u64>, bounded);
